@@ -50,6 +50,10 @@ def scenarios():
 
 def replay(obligation, extra):
     tried = 0
+    from replay import trickle
+    r = trickle.check()
+    if r:
+        return r
     for name, kw in scenarios():
         for react_name, react in (('nothing', None), ('close at first message', lambda ws, ev, k, run: ws.close() if ev.name in ('text', 'ping') else None),
                                   ('send at every event', lambda ws, ev, k, run: _try(ws)),
